@@ -9,19 +9,18 @@ Definition case_property (c : case) : Prop :=
   match c with
   | Case lv r s holds t h id _ (Obs hs disp stamp crash _ resumed) =>
       link_property lv r s holds (effective resumed t h) id hs disp stamp crash
+  | CaseConc s holds e _ h _ (Obs hs disp stamp crash _ _) _ =>
+      link_property LTls (RDial e) s holds h IdMatch hs disp stamp crash
   end.
 
-(* the model's prediction of one recorded run *)
-Definition case_model (c : case) : outcome * bool :=
-  match c with Case lv r s _ t h id msgs _ => link_r code_fx lv r s t h id msgs end.
+(* the model's prediction of one recorded run: Corr.C08.model_of *)
+Definition case_model (c : case) : outcome * bool := model_of c.
 
 Definition case_observed (c : case) : outcome * bool :=
-  match c with
-  | Case _ _ _ _ _ _ _ _ (Obs hs disp stamp crash _ resumed) => (mkout hs disp stamp crash, resumed)
-  end.
+  match obs_of c with Obs hs disp stamp crash _ resumed => (mkout hs disp stamp crash, resumed) end.
 
 Definition case_honest_proof (c : case) : bool :=
-  match c with Case _ _ _ _ _ _ _ _ (Obs _ _ _ _ hp _) => hp end.
+  match obs_of c with Obs _ _ _ _ hp _ => hp end.
 
 Lemma keys_eqb_eq a b : keys_eqb a b = true <-> a = b.
 Proof.
@@ -36,27 +35,39 @@ Theorem violations_nil_iff (l : list case) :
   violations l = [] <-> forall c, In c l -> case_property c.
 Proof.
   unfold violations, viols. rewrite viol_idx_nil. split; intros H c Hc; specialize (H c Hc);
-    destruct c as [lv r s holds t h id msgs [hs disp stamp crash hp rs]]; simpl in *.
-  - now apply prop_check_sound.
-  - now apply prop_check_sound.
+    destruct c as [lv r s holds t h id msgs [hs disp stamp crash hp rs]
+                  |s holds e other h msgs [hs disp stamp crash hp rs] up]; simpl in *;
+    now apply prop_check_sound.
 Qed.
 
-(* mism = []  <->  the model predicts every recorded run exactly *)
-Theorem mismatches_nil_iff (l : list case) :
-  mismatches l = [] <->
-  forall c, In c l -> case_model c = case_observed c /\ case_honest_proof c = true.
+Lemma obs_agrees_iff m rs hs disp stamp crash hp resumed :
+  obs_agrees m rs (Obs hs disp stamp crash hp resumed) = true <->
+  (m, rs) = (mkout hs disp stamp crash, resumed) /\ hp = true.
 Proof.
-  unfold mismatches. rewrite mism_idx_nil. split; intros H c Hc; specialize (H c Hc);
-    destruct c as [lv r s holds t h id msgs [hs disp stamp crash hp rs]]; simpl in *.
-  - destruct (link_r code_fx lv r s t h id msgs) as [[a b c d] e]. simpl in *.
-    repeat (apply andb_true_iff in H as [H ?]).
+  unfold obs_agrees. destruct m as [a b c d]. simpl. split.
+  - intros H. repeat (apply andb_true_iff in H as [H ?]).
     apply eqb_prop in H.
     repeat match goal with X : Bool.eqb _ _ = true |- _ => apply eqb_prop in X end.
     match goal with X : (_ =? _) = true |- _ => apply Nat.eqb_eq in X end.
     match goal with X : keys_eqb _ _ = true |- _ => apply keys_eqb_eq in X end.
     subst. auto.
-  - destruct H as [H ->]. rewrite H. simpl. rewrite !eqb_reflx, Nat.eqb_refl. simpl.
+  - intros [H ->]. injection H as -> -> -> -> ->. rewrite !eqb_reflx, Nat.eqb_refl. simpl.
     rewrite !andb_true_r. now apply keys_eqb_eq.
+Qed.
+
+(* mism = []  <->  the model predicts every recorded run exactly (and, in the
+   two-dials scenario, the honest second link as well) *)
+Theorem mismatches_nil_iff (l : list case) :
+  mismatches l = [] <->
+  forall c, In c l -> case_model c = case_observed c /\ case_honest_proof c = true /\ extra_ok c = true.
+Proof.
+  unfold mismatches. rewrite mism_idx_nil.
+  assert (E : forall c, agree c = true <->
+            case_model c = case_observed c /\ case_honest_proof c = true /\ extra_ok c = true).
+  { intros c. unfold agree, case_model, case_observed, case_honest_proof.
+    destruct (model_of c) as [m rs]. destruct (obs_of c) as [hs disp stamp crash hp resumed].
+    rewrite andb_true_iff, obs_agrees_iff. tauto. }
+  split; intros H c Hc; apply E; auto.
 Qed.
 
 (* ------------------------------------------------------------------------- *)
